@@ -22,7 +22,8 @@ THEOREMS['C05'] = ['FB.run_refines', 'FB.replay_sound', 'FB.C13_read_replay', 'F
                    'FB.replay_simple_complete', 'FB.leaf_run_replays', 'FB.C05_leaf_file_reused_partial', 'FB.C05_leaf_sub_reused_partial',
                    'FB.flat_second_run', 'FB.flat_keeps', 'FB.lookupFile_hit',
                    'FB.C05_flat_rebuild', 'FB.preClean_recovers', 'FB.cachedIn_first', 'FB.flat_ok_run', 'FB.flat_first_facts',
-                   'FB.flat_rerun', 'FB.leaf_lockstep', 'FB.rerunInvs_ok']
+                   'FB.flat_rerun', 'FB.leaf_lockstep', 'FB.rerunInvs_ok',
+                   'FB.nested_second_run', 'FB.replay_run', 'FB.run_keeps', 'FB.run_absent', 'FB.n_first']
 THEOREMS['C06'] = ['FB.C06_changed_invalidates', 'FB.C06_changed_invalidatesL', 'FB.C06_lookup_tests_version',
                    'FB.C06_equal_versions_pass']
 THEOREMS['C08'] = ['FB.C08_dup_file_rejected', 'FB.C08_dup_file_no_effect', 'FB.C08_dup_sub_no_effect',
@@ -354,6 +355,8 @@ def check_C02(tier):
                          _after=lambda rep: [rep.violation('bulk_rollback', {'property': 'C02', 'kind': 'failing-input', 'what': q},
                                                            note=json.dumps(q, default=str)[:250]) for q in bulk_rollback_probe(tier, rep)[:2]])
 def _c03_after(tier, rep):
+    for q in bulk_foreign_probe(tier, rep)[:2]:
+        rep.violation('bulk_foreign', {'property': 'C03', 'kind': 'failing-input', 'what': q}, note=json.dumps(q, default=str)[:250])
     explore_threads('C03', tier, rep, ['overwrite_foreign_then_fail', 'rebuild_two_then_fail'], budget(tier, 2, 3), budget(tier, 300, 5000))
     # _make_room on its own: it may only move files the virtual tree does not know to the undo log and remove
     # directories the virtual tree does not know (oracle), and must do what FB.MakeRoom says (tie)
@@ -588,6 +591,61 @@ def bulk_rollback_probe(tier, rep):
         FB.build_versioned(cache, 'n', {'leaf': 1}, rootf, 'one', None)
         if ran and not problems:
             problems.append({'what': 'the build after the rolled-back one re-ran %d functions (as if the failed build had left traces)' % len(ran), 'outputs': n})
+    finally:
+        shutil.rmtree(root, ignore_errors=True)
+    return problems
+
+
+def bulk_foreign_probe(tier, rep):
+    """C03 at a size no generated history reaches: several hundred foreign files (the build never made them), a first
+    build that overwrites every one of them and then fails.  Every file must be back with its bytes and
+    modification time - the undo log fans out over subdirectories of 128 entries."""
+    import shutil
+    import tempfile
+    fb = realrun.load_fb()
+    FB = fb.FileBuilder
+    problems = []
+    n = 300 if tier == 'quick' else 17000
+    root = os.path.realpath(tempfile.mkdtemp(prefix='fbh_bulkf_', dir=realrun.SANDBOX_BASE))
+    try:
+        cache = os.path.join(root, 'cache.gz')
+        for i in range(n):
+            p = os.path.join(root, 'u', 'd%02d' % (i % 5), 'f%05d' % i)
+            os.makedirs(os.path.dirname(p), exist_ok=True)
+            with open(p, 'w') as fh:
+                fh.write('foreign-%d' % i)
+            os.utime(p, ns=(1_500_000_000_000_000_000 + i, 1_500_000_000_000_000_000 + i))
+
+        def leaf(b, fn, i):
+            with open(fn, 'w') as fh:
+                fh.write('built-%d' % i)
+
+        def rootf(b):
+            for i in range(n):
+                b.build_file(os.path.join(root, 'u', 'd%02d' % (i % 5), 'f%05d' % i), 'leaf', leaf, i)
+            raise ValueError('boom')
+
+        def snap():
+            out = {}
+            for r_, _ds, fs in os.walk(root):
+                for f in fs:
+                    q = os.path.join(r_, f)
+                    with open(q, 'rb') as fh:
+                        out[os.path.relpath(q, root)] = (fh.read(), os.stat(q).st_mtime_ns)
+            return out
+        before = snap()
+        try:
+            FB.build(cache, 'n', rootf)
+            problems.append({'what': 'the failing build did not raise'})
+        except ValueError:
+            pass
+        after = snap()
+        rep.count('bulk_foreign_files_overwritten', n)
+        if after != before:
+            wrong = sorted(k for k in set(before) | set(after) if before.get(k) != after.get(k))
+            problems.append({'what': 'after a rolled-back build that had overwritten %d foreign files, %d files differ from the pre-build state' % (n, len(wrong)),
+                             'files': n, 'first_differing': wrong[:5],
+                             'how_to_replay': 'create %d files u/d<i%%5>/f<i>; build_file every one of them in a first build, then raise; compare bytes and mtimes' % n})
     finally:
         shutil.rmtree(root, ignore_errors=True)
     return problems
